@@ -145,6 +145,9 @@ def describe_len(fn, op, depth=0):
         c = mir.callee(t) or ""
         if not o.path and c.endswith("::len") and t[2]:
             return ("len", okey(o.fn, t[2][0]))
+        # `usize::from(u16::MAX)`, `x.into()`: a lossless integer conversion of whatever it converts
+        if not o.path and len(t[2]) == 1 and (c.endswith(">::from") or c.endswith(">::into")) and any(x in (t[1].get("full") or "") for x in ("From<u8>", "From<u16>", "From<u32>", "Into<usize>", "Into<u64>", "From<bool>")):
+            return describe_len(o.fn, t[2][0], depth + 1)
         if not o.path and c.endswith("::min") and len(t[2]) == 2:
             return ("min", [describe_len(o.fn, t[2][0], depth + 1), describe_len(o.fn, t[2][1], depth + 1)])
         if not o.path and c.endswith("::max") and len(t[2]) == 2:
@@ -477,6 +480,9 @@ def auto(F, s, ctx):
                     return False, "chrono format string is not a known-valid constant (%s)" % (sorted(cs) if cs else "input-derived")
         return False, None
     if k == "call:truncate":
+        # a string formatted from integers is ASCII: every offset <= len is a char boundary, and a cut beyond len is a no-op
+        if ascii_provenance(F, f, t[2][0]):
+            return True, "String::truncate on a string formatted from integers (ASCII): any position is a char boundary, beyond len is a no-op"
         # String::truncate(s, cut) with cut = index from s.char_indices()
         cut = t[2][1]
         sk = okey(f, t[2][0])
@@ -689,6 +695,17 @@ def slice_ok(F, f, bi, t, full):
         if e[0] == "min" and any(x == ("len", ckey) for x in e[1]):
             if ascii_provenance(F, f, coll): return True, "s[..min(len(s), n)], s formatted from integers (ASCII): in bounds and on a char boundary"
             return False, "s[..min(len, n)] is in bounds but s is not of ASCII provenance: may split a multi-byte character"
+        # s[..cut] with cut = byte offset yielded by s.char_indices(): in bounds and on a char boundary
+        via_ci = []
+        for o in mir.trace_op(f, ops[0], transparent=()):
+            hit = False
+            if o.kind == "call":
+                t2 = o.fn.blocks[o.data]["t"]
+                if (mir.callee(t2) or "").endswith("Iterator::nth") or (mir.callee(t2) or "").endswith("Iterator>::next") or "CharIndices" in (t2[1].get("full") or ""):
+                    for o2 in mir.trace_op(o.fn, t2[2][0], transparent=("IntoIterator>::into_iter",)):
+                        if o2.kind == "call" and (mir.callee(o2.fn.blocks[o2.data]["t"]) or "").endswith("::char_indices") and okey(o2.fn, o2.fn.blocks[o2.data]["t"][2][0]) == ckey: hit = True
+            via_ci.append(hit)
+        if via_ci and all(via_ci): return True, "s[..cut] with cut an offset yielded by s.char_indices() (char boundary, <= len)"
         # s[..n] under len(s) > n with s of ASCII provenance
         nk = okey(f, ops[0])
         bounded = False
